@@ -16,12 +16,12 @@ import (
 
 // travCase is a replayable case of parts (a) and (b).
 type travCase struct {
-	Kind   string             `json:"kind"` // "trav"
-	Text   string             `json:"text"` // the traversal-shaped source text (may contain newlines between steps)
-	Steps  []step             `json:"steps"`
-	Vars   map[string]valDoc  `json:"vars"`
-	Parent map[string]valDoc  `json:"parent,omitempty"`
-	NilMid bool               `json:"nilmid,omitempty"` // an intermediate context without a variables map
+	Kind   string            `json:"kind"` // "trav"
+	Text   string            `json:"text"` // the traversal-shaped source text (may contain newlines between steps)
+	Steps  []step            `json:"steps"`
+	Vars   map[string]valDoc `json:"vars"`
+	Parent map[string]valDoc `json:"parent,omitempty"`
+	NilMid bool              `json:"nilmid,omitempty"` // an intermediate context without a variables map
 	vars   map[string]cty.Value
 	parent map[string]cty.Value
 }
